@@ -14,6 +14,7 @@ import (
 	"container/list"
 	"context"
 	"fmt"
+	"sort"
 	"sync"
 
 	"github.com/ipfs/go-cid"
@@ -193,56 +194,116 @@ func newMergeTarget() mergeTarget {
 
 // loadComposites retrieves and stores into the merge processor the composite blocks for the given
 // CID until it reaches a block that has already been merged or until we reach the genesis block.
+//
+// A block has already been merged if it is one of the current heads (the merge target) or an ancestor
+// of one of them. The heads may sit at different heights and the incoming block may have branched off
+// from an older block, so the merge target's DAG is walked back (only as far as the height of the block
+// in question) to decide this. Every block is queued once, parents before children.
 func (mp *mergeProcessor) loadComposites(
 	ctx context.Context,
 	blockCid cid.Cid,
 	mt mergeTarget,
 ) error {
-	if _, ok := mt.heads[blockCid]; ok {
-		// We've already processed this block.
-		return nil
+	// merged holds the blocks of the merge target's DAG discovered so far, frontier the ones
+	// whose parents have not been loaded yet.
+	merged := make(map[cid.Cid]struct{}, len(mt.heads))
+	frontier := make([]*coreblock.Block, 0, len(mt.heads))
+	for c, b := range mt.heads {
+		merged[c] = struct{}{}
+		frontier = append(frontier, b)
 	}
 
-	nd, err := mp.blockLS.Load(linking.LinkContext{Ctx: ctx}, cidlink.Link{Cid: blockCid}, coreblock.BlockSchemaPrototype)
-	if err != nil {
-		return err
+	// isMerged walks the merge target's DAG back until all its undiscovered blocks are
+	// below the given height, at which point membership of a block of that height is decided.
+	isMerged := func(c cid.Cid, height uint64) (bool, error) {
+		for {
+			expanded := false
+			next := frontier[:0:0]
+			for _, b := range frontier {
+				if b.Delta.GetPriority() <= height {
+					next = append(next, b)
+					continue
+				}
+				expanded = true
+				for _, link := range b.Heads {
+					if _, ok := merged[link.Cid]; ok {
+						continue
+					}
+					nd, err := mp.blockLS.Load(linking.LinkContext{Ctx: ctx}, link, coreblock.BlockSchemaPrototype)
+					if err != nil {
+						return false, err
+					}
+					parent, err := coreblock.GetFromNode(nd)
+					if err != nil {
+						return false, err
+					}
+					merged[link.Cid] = struct{}{}
+					next = append(next, parent)
+				}
+			}
+			frontier = next
+			if !expanded {
+				break
+			}
+		}
+		_, ok := merged[c]
+		return ok, nil
 	}
 
-	block, err := coreblock.GetFromNode(nd)
-	if err != nil {
-		return err
-	}
+	visited := make(map[cid.Cid]struct{})
+	var pending []*coreblock.Block
+	var load func(c cid.Cid) error
+	load = func(c cid.Cid) error {
+		if _, ok := visited[c]; ok {
+			return nil
+		}
+		visited[c] = struct{}{}
 
-	// In the simplest case, the new block or its children will link to the current head/heads (merge target)
-	// of the composite DAG. However, the new block and its children might have branched off from an older block.
-	// In this case, we also need to walk back the merge target's DAG until we reach a common block.
-	if block.Delta.GetPriority() >= mt.headHeight {
-		mp.composites.PushFront(block)
+		if _, ok := mt.heads[c]; ok {
+			// We've already processed this block.
+			return nil
+		}
+
+		nd, err := mp.blockLS.Load(linking.LinkContext{Ctx: ctx}, cidlink.Link{Cid: c}, coreblock.BlockSchemaPrototype)
+		if err != nil {
+			return err
+		}
+
+		block, err := coreblock.GetFromNode(nd)
+		if err != nil {
+			return err
+		}
+
+		done, err := isMerged(c, block.Delta.GetPriority())
+		if err != nil {
+			return err
+		}
+		if done {
+			return nil
+		}
+
+		pending = append(pending, block)
 		for _, head := range block.Heads {
-			err := mp.loadComposites(ctx, head.Cid, mt)
+			err := load(head.Cid)
 			if err != nil {
 				return err
 			}
 		}
-	} else {
-		newMT := newMergeTarget()
-		for _, b := range mt.heads {
-			for _, link := range b.Heads {
-				nd, err := mp.blockLS.Load(linking.LinkContext{Ctx: ctx}, link, coreblock.BlockSchemaPrototype)
-				if err != nil {
-					return err
-				}
+		return nil
+	}
 
-				childBlock, err := coreblock.GetFromNode(nd)
-				if err != nil {
-					return err
-				}
+	err := load(blockCid)
+	if err != nil {
+		return err
+	}
 
-				newMT.heads[link.Cid] = childBlock
-				newMT.headHeight = childBlock.Delta.GetPriority()
-			}
-		}
-		return mp.loadComposites(ctx, blockCid, newMT)
+	// A block's height is greater than the height of each of its parents, so merging
+	// in order of height merges parents before children.
+	sort.SliceStable(pending, func(i, j int) bool {
+		return pending[i].Delta.GetPriority() < pending[j].Delta.GetPriority()
+	})
+	for _, block := range pending {
+		mp.composites.PushBack(block)
 	}
 	return nil
 }
